@@ -250,6 +250,18 @@ class Model(object):
     if env_at is None:
       env_at = env
     op = e[0]
+    if op == "assign_then":
+      # exprtk statement list 'name := expr; body': the assignment holds for the rest of THIS evaluation only
+      def _assigned(en):
+        en2 = dict(en)
+        key = e[1]
+        for k_ in en:
+          if k_.lower() == e[1].lower():
+            key = k_
+        en2[key] = self.eval_expr(e[2], en)
+        return en2
+      env2 = _assigned(env)
+      return self.eval_expr(e[3], env2, env2 if env_at is env else _assigned(env_at))
     if op == "num":
       return F(e[1])
     if op == "var":
@@ -515,6 +527,17 @@ class Model(object):
     if env_at is None:
       env_at = env
     op = e[0]
+    if op == "assign_then":
+      def _assigned(en):
+        en2 = dict(en)
+        key = e[1]
+        for k_ in en:
+          if k_.lower() == e[1].lower():
+            key = k_
+        en2[key] = self.eval_expr(e[2], en)
+        return en2
+      env2 = _assigned(env)
+      return self.expr_mag(e[3], env2, env2 if env_at is env else _assigned(env_at))
     if op in ("num", "var"):
       v = self.eval_expr(e, env, env_at)
       return v, abs(v)
